@@ -273,6 +273,10 @@ def _job(args):
     for _ in range(n_random):
         root, dirs, files = scan.gen_tree(rng, max_depth=4)
         scan.gen_imports(rng, dirs, files, nested=True)
+        if rng.random() < 0.3:
+            dirs = scan.add_links(rng, dirs, files)        # a module file / a package under a second name (symbolic links): named by the path
+            if dirs.links or any(v.get("link_to") for v in files.values()):
+                out["stats"]["projects_with_symlinks"] = out["stats"].get("projects_with_symlinks", 0) + 1
         check_project(root, dirs, files, None, out, "random")
         out["stats"]["random_projects"] = out["stats"].get("random_projects", 0) + 1
     return out
